@@ -15,8 +15,8 @@ PROP = "C18"
 LEVEL = "exploration"
 RUNS = {"quick": 3000, "thorough": 100000}
 SHRINK_LISTS = ()
-TAMPERS = ["nonce_prefix", "nonce_replaced", "salt", "iterations", "signature",
-           "error_instead_of_verifier"]
+TAMPERS = ["nonce_prefix", "nonce_replaced", "salt", "iterations", "signature", "signature",
+           "sig_truncate", "sig_extend", "error_instead_of_verifier"]
 ALPH = "abcXYZ019,=,=é日ß -_@"
 
 
@@ -33,7 +33,7 @@ def gen_plan(seed, index, tier="quick"):
         "salt": bytes(r.randrange(256) for _ in range(r.randint(1, 64))).hex(),
         "iterations": it, "behaviour": behaviour,
         "tamper": r.choice(TAMPERS) if behaviour == "tamper" else None,
-        "handshake_max": r.choice([0, 1]),
+        "handshake_max": r.choice([0, 1]), "tamper_arg": r.randrange(1 << 16),
         "server_nonce": "".join(r.choice("abcdefghijklmnopqrstuvwxyz0123456789") for _ in range(12)),
         "cluster": {"brokers": 1, "lat": [0.0001, r.choice([0.0005, 0.005])],
                     "chunk": r.choice(["whole", "random", "bytes"]),
@@ -54,6 +54,7 @@ def execute(plan):
         users = {plan["user"]: plan["password"] + "x"}
     srv = ScramServer(world, users, salt=bytes.fromhex(plan["salt"]), iterations=plan["iterations"],
                       server_nonce=plan["server_nonce"], tamper=plan["tamper"],
+                      tamper_arg=plan.get("tamper_arg"),
                       impostor=plan["behaviour"] == "impostor")
     broker.sasl = srv
     out = {}
@@ -102,5 +103,7 @@ def execute(plan):
         if sess is None:
             world.violation(PROP, "no_sasl_exchange", {"result": list(got)})
         world.probe(f"behaviour_{plan['behaviour']}_{plan['tamper']}")
-    scenario.finish(res, world, (plan["behaviour"], plan["tamper"], plan["mechanism"], plan["handshake_max"], plan["user"], plan["password"], len(plan["salt"]), plan["iterations"], plan["cluster"]["chunk"]))
+        if plan["behaviour"] == "impostor" and plan.get("tamper_arg") is not None:
+            world.probe(f"impostor_signature_shape_{plan['tamper_arg'] % 4}")
+    scenario.finish(res, world, (plan["behaviour"], plan["tamper"], plan.get("tamper_arg"), plan["mechanism"], plan["handshake_max"], plan["user"], plan["password"], len(plan["salt"]), plan["iterations"], plan["cluster"]["chunk"]))
     return res
